@@ -3,7 +3,9 @@ C12 — property theorems (statements fixed by the architect; do not weaken).
 Helper lemmas: PeroVerif/Lemmas/SmartSort.lean.
 -/
 import PeroVerif.Model.SmartSort
+import PeroVerif.Model.Deskew
 import PeroVerif.Lemmas.SmartSort
+import PeroVerif.Lemmas.Deskew
 
 namespace C12
 open SS
@@ -68,5 +70,27 @@ example : smartSort 1 10 exOverlap = some [⟨0, 0, 0, 500, 500⟩, ⟨2, 50, 20
 example : naiveOrder [5, 1, 3, 2] [1, 0, 1, 0] = some [1, 3, 2, 0] := by
   simp [naiveOrder, uniq, firstIdx, sortBy, List.mergeSort, List.MergeSort.Internal.splitInTwo,
     List.eraseDups_cons, List.range, List.range.loop, List.findIdx_cons]
+
+
+/-! ### De-skew: rotating there and back leaves every geometry unchanged -/
+
+/-- "Geometry unchanged as shapes": the sorter rotates every region outline, line polygon and baseline by `-angle`
+before sorting and by `+angle` afterwards; in exact arithmetic that is the identity, vertex by vertex (floats add the
+round-off the property allows). -/
+theorem deskew_roundtrip (c s : Rat) (h : c * c + s * s = 1) (poly : List Deskew.Pt) :
+    Deskew.thereAndBack c s poly = poly :=
+  Deskew.thereAndBack_id c s h poly
+
+/-- The de-skew rotation is an isometry: while the page is rotated, all distances (hence region and line shapes) are
+those of the original page. -/
+theorem deskew_isometry (c s : Rat) (h : c * c + s * s = 1) (p q : Deskew.Pt) :
+    ((Deskew.rot c s p).1 - (Deskew.rot c s q).1) * ((Deskew.rot c s p).1 - (Deskew.rot c s q).1) +
+      ((Deskew.rot c s p).2 - (Deskew.rot c s q).2) * ((Deskew.rot c s p).2 - (Deskew.rot c s q).2) =
+    (p.1 - q.1) * (p.1 - q.1) + (p.2 - q.2) * (p.2 - q.2) :=
+  Deskew.rot_dist c s h p q
+
+/-- non-vacuity: the 3-4-5 rotation -/
+example : Deskew.thereAndBack (3/5) (4/5) [(10, 20), (110, 20), (110, 70)] = [(10, 20), (110, 20), (110, 70)] := by
+  decide +kernel
 
 end C12
